@@ -9,6 +9,7 @@ mod sched;
 mod halflock;
 mod regconc;
 mod channel;
+mod iterconc;
 
 #[global_allocator]
 static GLOBAL: sched::CountingAlloc = sched::CountingAlloc;
@@ -23,6 +24,7 @@ fn main() {
         "halflock" => halflock::main(),
         "regconc" => regconc::main(),
         "channel" => channel::main(),
+        "iterconc" => iterconc::main(),
         "channel-table" => channel::table_main(),
         "channel-stress" => channel::stress_main(),
         _ => {
